@@ -137,6 +137,9 @@ func directPart(v ssa.Value, node ssa.Value, depth int) string {
 	if depth > 12 {
 		return "selection chain too long"
 	}
+	if v == node {
+		return ""
+	}
 	switch x := v.(type) {
 	case *ssa.MakeInterface:
 		return directPart(x.X, node, depth+1)
@@ -188,6 +191,45 @@ func directPart(v ssa.Value, node ssa.Value, depth int) string {
 		return ""
 	}
 	return "the part is not a field of the case's node (" + v.String() + ")"
+}
+
+// strictPart: v selects a field or element on its way back to node (it is a
+// proper part, not the node itself seen through a conversion or assertion).
+func strictPart(v ssa.Value, node ssa.Value, depth int) bool {
+	if depth > 12 || v == node {
+		return false
+	}
+	switch x := v.(type) {
+	case *ssa.MakeInterface:
+		return strictPart(x.X, node, depth+1)
+	case *ssa.ChangeInterface:
+		return strictPart(x.X, node, depth+1)
+	case *ssa.UnOp:
+		return x.Op == token.MUL && strictPart(x.X, node, depth+1)
+	case *ssa.FieldAddr, *ssa.Field, *ssa.IndexAddr, *ssa.Index, *ssa.Lookup:
+		return true
+	case *ssa.Extract:
+		if ta, ok := x.Tuple.(*ssa.TypeAssert); ok && x.Index == 0 {
+			return strictPart(ta.X, node, depth+1)
+		}
+		if nx, ok := x.Tuple.(*ssa.Next); ok {
+			if _, ok := nx.Iter.(*ssa.Range); ok {
+				return true
+			}
+		}
+	case *ssa.TypeAssert:
+		return strictPart(x.X, node, depth+1)
+	case *ssa.Alloc:
+		for _, ref := range *x.Referrers() {
+			if st, ok := ref.(*ssa.Store); ok && st.Addr == ssa.Value(x) {
+				if !strictPart(st.Val, node, depth+1) {
+					return false
+				}
+			}
+		}
+		return true
+	}
+	return false
 }
 
 // ---------------------------------------------------------------------------
@@ -892,6 +934,9 @@ func ruleSeenToken(p *Program, r *Reporter) {
 		switch x := ins.(type) {
 		case *ssa.Call:
 			cal := x.Call.StaticCallee()
+			if _, isBuiltin := x.Call.Value.(*ssa.Builtin); isBuiltin {
+				return false // append, len, …: they look at nothing of the parser's
+			}
 			if cal == nil {
 				return true // a parselet called through the tables dispatches on the current token
 			}
@@ -925,47 +970,111 @@ func ruleSeenToken(p *Program, r *Reporter) {
 				}
 				idx++
 				key := fmt.Sprintf("%s/advance %d lands on a token that was or will be looked at", p.FnName(fn), idx)
-				// (1) examined afterwards on every path
-				after := true
-				type fwdState struct {
-					b   *ssa.BasicBlock
-					rec bool
-				}
-				seen := map[fwdState]bool{}
-				var fwd func(bl *ssa.BasicBlock, from int, rec bool)
-				fwd = func(bl *ssa.BasicBlock, from int, rec bool) {
-					if !after {
-						return
+				// (1) examined afterwards on every path; a function that returns
+				// right after the advance leaves the look to its callers
+				var examinedAfter func(f *ssa.Function, bl *ssa.BasicBlock, from int, depth int, nonNil ssa.Value) bool
+				examinedAfter = func(f *ssa.Function, bl *ssa.BasicBlock, from int, depth int, nonNil ssa.Value) bool {
+					okAll := true
+					type fwdState struct {
+						b   *ssa.BasicBlock
+						rec bool
 					}
-					for j := from; j < len(bl.Instrs); j++ {
-						in := bl.Instrs[j]
-						if examines(in) {
+					seen := map[fwdState]bool{}
+					var fwd func(bl *ssa.BasicBlock, from int, rec bool)
+					fwd = func(bl *ssa.BasicBlock, from int, rec bool) {
+						if !okAll {
 							return
 						}
-						if recordsParseError(pr, in) {
-							rec = true
-						}
-						if c2, ok := in.(*ssa.Call); ok && moves(c2) {
-							after = false
-							return
-						}
-						if _, ok := in.(*ssa.Return); ok {
-							// a return after an error was recorded rejects the
-							// script: nothing is accepted by not looking
-							if !rec {
-								after = false
+						for j := from; j < len(bl.Instrs); j++ {
+							in := bl.Instrs[j]
+							if examines(in) {
+								return
 							}
-							return
+							if recordsParseError(pr, in) {
+								rec = true
+							}
+							if c2, ok := in.(*ssa.Call); ok && moves(c2) {
+								okAll = false
+								return
+							}
+							if _, ok := in.(*ssa.Return); ok {
+								// a return after an error was recorded rejects the
+								// script: nothing is accepted by not looking
+								if rec {
+									return
+								}
+								// otherwise every caller must look at the token
+								if depth >= 2 {
+									okAll = false
+									return
+								}
+								// (the value returned on this path: when it is not nil the
+								// caller's branch for a nil result is not taken)
+								var retNonNil bool
+								if rt, ok := in.(*ssa.Return); ok && len(rt.Results) == 1 && !isNilConst(rt.Results[0]) {
+									if _, isPhi := rt.Results[0].(*ssa.Phi); !isPhi {
+										retNonNil = true
+									}
+								}
+								sites := 0
+								for _, g := range pr.all {
+									for _, gb := range g.Blocks {
+										for gi, gin := range gb.Instrs {
+											if c3, ok := staticCalleeIs(gin, f); ok && c3 != nil {
+												sites++
+												var nn ssa.Value
+												if retNonNil {
+													nn = c3
+												}
+												if !examinedAfter(g, gb, gi+1, depth+1, nn) {
+													okAll = false
+												}
+											}
+										}
+									}
+								}
+								if sites == 0 {
+									okAll = false
+								}
+								return
+							}
+						}
+						succs := bl.Succs
+						if nonNil != nil {
+							if iff, ok := terminator(bl).(*ssa.If); ok {
+								if bo, ok := iff.Cond.(*ssa.BinOp); ok && (bo.Op == token.EQL || bo.Op == token.NEQ) {
+									x, y := bo.X, bo.Y
+									if isNilConst(x) {
+										x, y = y, x
+									}
+									for {
+										if mi, ok := x.(*ssa.MakeInterface); ok {
+											x = mi.X
+											continue
+										}
+										break
+									}
+									if isNilConst(y) && x == nonNil {
+										if bo.Op == token.EQL {
+											succs = bl.Succs[1:2]
+										} else {
+											succs = bl.Succs[0:1]
+										}
+									}
+								}
+							}
+						}
+						for _, s := range succs {
+							if !seen[fwdState{s, rec}] {
+								seen[fwdState{s, rec}] = true
+								fwd(s, 0, rec)
+							}
 						}
 					}
-					for _, s := range bl.Succs {
-						if !seen[fwdState{s, rec}] {
-							seen[fwdState{s, rec}] = true
-							fwd(s, 0, rec)
-						}
-					}
+					fwd(bl, from, false)
+					return okAll
 				}
-				fwd(b, i+1, false)
+				after := examinedAfter(fn, b, i+1, 0, nil)
 				if after {
 					r.Ok(key, p.Pos(c.Pos()), "the token is examined after the advance on every path")
 					continue
@@ -1680,23 +1789,57 @@ func ruleFoldArity(p *Program, r *Reporter) {
 		}
 	}
 	nth := map[string]int{}
+	// a write into the program: a store to one of its bytes, or a call of a
+	// function that makes such stores on the caller's behalf
+	storesCode := func(f *ssa.Function) int {
+		n := 0
+		for _, b := range f.Blocks {
+			for _, ins := range b.Instrs {
+				if st, ok := ins.(*ssa.Store); ok {
+					if ia, ok := st.Addr.(*ssa.IndexAddr); ok {
+						if ld, ok := ia.X.(*ssa.UnOp); ok && isByteSlice(ld.Type()) {
+							if _, isField := ld.X.(*ssa.FieldAddr); isField {
+								n++
+							}
+						}
+					}
+				}
+			}
+		}
+		return n
+	}
 	for _, b := range fold.Blocks {
 		for _, ins := range b.Instrs {
-			st, ok := ins.(*ssa.Store)
-			if !ok {
+			var st ssa.Instruction
+			weight := 1
+			switch x := ins.(type) {
+			case *ssa.Store:
+				ia, ok := x.Addr.(*ssa.IndexAddr)
+				if !ok {
+					continue
+				}
+				ld, ok := ia.X.(*ssa.UnOp)
+				if !ok || !isByteSlice(ld.Type()) {
+					continue
+				}
+				if _, isField := ld.X.(*ssa.FieldAddr); !isField {
+					continue
+				}
+				st = x
+			case *ssa.Call:
+				cal := x.Call.StaticCallee()
+				if cal == nil || fnPkg(cal) == nil || fnPkg(cal).Pkg.Path() != Mod+"/vm" || cal == fold {
+					continue
+				}
+				if w := storesCode(cal); w > 0 {
+					st, weight = x, w
+				} else {
+					continue
+				}
+			default:
 				continue
 			}
-			ia, ok := st.Addr.(*ssa.IndexAddr)
-			if !ok {
-				continue
-			}
-			ld, ok := ia.X.(*ssa.UnOp)
-			if !ok || !isByteSlice(ld.Type()) {
-				continue
-			}
-			if _, isField := ld.X.(*ssa.FieldAddr); !isField {
-				continue
-			}
+			_ = weight
 			label := outerCase(p, fold, st.Pos())
 			need := int64(2)
 			if strings.Contains(label, "OpSquareRoot") {
@@ -2477,8 +2620,9 @@ func ruleEmitSet(p *Program, r *Reporter) {
 					continue // selected through a table: R-OPMAP's subject
 				}
 				label := "(helper " + f.Name() + ")"
-				if f == a.compile {
-					label = strings.TrimPrefix(outerCase(p, f, c.Pos()), "case ")
+				if root, l := caseHome(p, f, c.Pos()); root == a.compile && l != "" {
+					// in the case itself, or in a function that case alone calls
+					label = strings.TrimPrefix(l, "case ")
 				}
 				if got[label] == nil {
 					got[label] = map[string]token.Pos{}
